@@ -252,7 +252,7 @@ func (g *G) check(t *Table, k int) (Check, bool) {
 	var e string
 	if isNumTy(c.Type) {
 		e = []string{"`%s` > 0", "(`%s` >= 0)", "`%s` <> 7", "(`%s` > 0 AND `%[1]s` < 100)"}[g.r.Intn(4)]
-		if g.allowKnown && g.r.Chance(1, 10) {
+		if g.r.Chance(1, 10) { // starts and ends with a paren without being one parenthesised expression
 			e = "(`%s` > 0) AND (`%[1]s` < 100)"
 		}
 	} else {
@@ -827,8 +827,8 @@ func (g *G) pair1() (Schema, Schema, string) {
 }
 
 // inline UNIQUE constraints for a "current" schema created by foreign SQL; the desired schema keeps
-// them as the unique index Atlas would have created (<table>_<col>) unless allowKnown (dropping an
-// inline UNIQUE constraint through the ALTER path is a known finding)
+// them, two times out of three, as the unique index Atlas would have created (<table>_<col>); otherwise
+// the constraint has to go (a table rebuild since the fix of C01-drop-inline-unique)
 func (g *G) addUniques(s, b *Schema) bool {
 	done := false
 	for i := range s.Tables {
@@ -844,7 +844,7 @@ func (g *G) addUniques(s, b *Schema) bool {
 			}
 			t.Uniques = append(t.Uniques, []string{c})
 			done = true
-			if bt := b.table(t.Name); bt != nil && bt.hasCol(c) && (!g.allowKnown || g.r.Bool()) {
+			if bt := b.table(t.Name); bt != nil && bt.hasCol(c) && g.r.Chance(2, 3) { // otherwise the constraint is dropped: a rebuild
 				bt.Idx = append(bt.Idx, Idx{Name: t.Name + "_" + c, Unique: true, Parts: []Part{{Seq: 1, Col: c}}})
 			}
 		}
